@@ -6,7 +6,12 @@ set -u
 SD=$(readlink -f "$1"); NAME=$2; shift 2
 BASE=/tmp/seedrun/$NAME
 rm -rf "$BASE"; mkdir -p "$BASE"
-git -C /repo worktree add --detach "$BASE/repo" HEAD >/dev/null 2>&1 || exit 3
+ok=0
+for try in 1 2 3 4 5 6; do
+  if git -C /repo worktree add --detach "$BASE/repo" HEAD >/dev/null 2>&1; then ok=1; break; fi
+  git -C /repo worktree prune >/dev/null 2>&1; rm -rf "$BASE/repo"; sleep 7
+done
+[ $ok = 1 ] || { mkdir -p /tmp/seedrun/results/$NAME; echo "worktree add failed" > /tmp/seedrun/results/$NAME/out_ERROR.txt; exit 3; }
 ( cd "$BASE/repo" && git apply "$SD/patch.diff" ) || { echo "patch failed" > "$BASE/FAILED"; }
 mkdir -p "$BASE/verif"
 git -C /verif archive HEAD | tar -x -C "$BASE/verif"      # committed state of /verif (not a half-edited working tree)
